@@ -172,6 +172,16 @@ ALPHABET = list("ab_- 1$.²ªµǅⅧ٣") + ["\t", "\n", "́", " ", "‍", "ﬁ"
 POOL = sorted(set(keyword.kwlist) | set(dir(object)) | {"_dict", "__dict__", "__weakref__", "__module__",
                                                           "__slots__", "__class__", "properties", "default",
                                                           "inline", "self", "None_", "class_", "blank", ""})
+def _fullwidth(word, i):
+    j = i % len(word)
+    c = word[j]
+    return word[:j] + chr(ord(c) + 0xFEE0) + word[j + 1:] if c.isascii() and c.isalpha() else word
+
+
+# compatibility spellings that NFKC folds onto keywords / reserved attributes
+POOL += sorted({_fullwidth(w, i) for w in list(keyword.kwlist) + ["_dict", "__init__", "__class__", "__dict__"]
+                for i in range(len(w))})[:400] + ["cla\u017fs", "\uff3f\uff3finit__", "\u2160f"]
+
 FAMILIES = [
     ["a b", "a_b", "a-b", "a\tb", "a  b", "a__b"],
     ["class", "class_", "class__"],
@@ -221,6 +231,12 @@ def gen_cases(draw):
         base = draw(st.sampled_from(["Foo", "foo", "my title", "a1b"]))
         fam = [base, base, base + "_1", base + " 1", base.upper(), base + "_2", base + "_1_1"]
         return {"kind": kind, "titles": draw(st.lists(st.sampled_from(fam), min_size=2, max_size=4))}
+    if draw(st.integers(0, 4)) == 0:
+        # two same-titled objects whose only difference is a pair of JSON names that look alike to
+        # sloppy comparisons ("" vs "blank" share the attribute name; the JSON names differ)
+        pair = draw(st.sampled_from([["", "blank"], ["class", "class_"], ["a b", "a_b"], ["1x", "_1x"],
+                                     ["\ufb01x", "fix"], ["__1", "_1"]]))
+        return {"kind": "dedupe", "pair": pair, "title": draw(st.sampled_from(["Foo", "my title"]))}
     titles = draw(st.lists(st.one_of(
         st.sampled_from(["string", "none", "object", "any", "list", "property", "array", "true", "日本", "123",
                          "my title", "My_Title", "a1b", "Foo", "foo", "Foo_1", "foo 1", "union", "maybe", "not"]),
@@ -275,6 +291,30 @@ def predicate(case, stats):
                     if getattr(got[1], attr, None) != value[prop.source]:
                         out.append(fail("siblings", ns, ["attribute-holds-a-sibling-value"], attribute=attr))
                         break
+        return out
+    if kind == "dedupe":
+        first, second = case["pair"]
+        schema = {"type": "object", "title": "Root", "properties": {
+            "p": {"type": "object", "title": case["title"], "properties": {first: {"type": "string"}}},
+            "q": {"type": "object", "title": case["title"], "properties": {second: {"type": "string"}}}}}
+        stats.case("d:" + canon(case["pair"]), True, ["gen:dedupe"], sample={"dedupe": case["pair"]})
+        parsed = observe.safe_parse(schema)
+        if parsed[0] != "ok":
+            return [fail("dedupe", case["pair"], ["parse-" + parsed[0] + ":" + parsed[1]])]
+        root = parsed[1]
+        out = []
+        for prop_name, json_name in (("p", first), ("q", second)):
+            cls = root.properties[prop_name].element
+            sources = [p.source for p in cls.properties.values()]
+            if sources != [json_name]:
+                out.append(fail("dedupe", case["pair"], ["class-shared-between-different-json-names"],
+                                holder=prop_name, sources=sources))
+            got = observe.verdict(root, {prop_name: {json_name: 5}})
+            if got[0] == "ok":
+                out.append(fail("dedupe", case["pair"], ["wrong-typed-member-accepted"], holder=prop_name))
+        if root.properties["p"].element.__name__ == root.properties["q"].element.__name__ and \
+                root.properties["p"].element is not root.properties["q"].element:
+            out.append(fail("dedupe", case["pair"], ["class-names-not-distinct"]))
         return out
     # titles: one document, several object schemas
     titles = case["titles"]
